@@ -99,8 +99,15 @@ def r3(ctx):
     wok = lambda n: g_is(lambda x: mentions_call(x, r"WriteCursor::write_bytes$"), n)
     fin = lambda t: g_bool(lambda x: x == ("field", ("param", "header"), "fin"), t)
     n = {}
+    writes = []
     for b, si, st in field_writes(bd, "state"):
-        e = sym.rvalue_expr(st.rv)
+        # one (value, block) pair per arm when the stored value is chosen by an `if` / `match` in front of a single store
+        for gs_, e, vb in value_arms(ctx, bd, sym, sym.rvalue_expr(st.rv), b.idx):
+            writes.append((e, vb))
+    for e, vb in writes:
+        class _B:  # the block whose guards decide this outcome
+            idx = vb
+        b = _B
         v = variant_name(e)
         n[v] = n.get(v, 0) + 1
         if v == "Complete":
@@ -173,7 +180,11 @@ def r5(ctx):
     e = sym.call_expr(hs[0].term)
     fin, fir, seq = e[2]
     is_eq = lambda x, pred: x[0] == "bin" and x[1] == "Eq" and pred(x)
-    ctx.check(is_eq(fin, lambda x: mentions_name(x, "last")), "writer:fin", "FIN <- count == last (%s)" % expr_str(fin)[:80], bd.where(hs[0].idx), bad_detail="FIN argument = %s" % expr_str(fin)[:100])
+    # FIN <- count == (index of the last chunk): `len - 1` guarded for the empty case, or `len.saturating_sub(1)`; via a variable or not
+    minus1 = lambda d: (mentions(d, lambda s: s[0] == "bin" and s[1] in ("Sub", "SubWithOverflow")) or mentions_call(d, r"saturating_sub$")) and mentions_const(d, 1) and mentions_call(d, r"::len$")
+    lasts = [x for side in (fin[2], fin[3]) for x in resolve_defs(bd, sym, side, depth=3)] if fin[0] == "bin" and fin[1] == "Eq" else []
+    lasts = [x for x in lasts if not mentions_call(x, r"enumerate$")]
+    ctx.check(bool(lasts) and any(minus1(x) for x in lasts) and all(minus1(x) or const_value(prog, x) == 0 for x in lasts), "writer:fin", "FIN <- count == last (%s)" % expr_str(fin)[:80], bd.where(hs[0].idx), bad_detail="FIN argument = %s" % expr_str(fin)[:100])
     ctx.check(is_eq(fir, lambda x: mentions_const(x, 0) and not mentions_name(x, "last")), "writer:fir", "FIR <- count == 0 (%s)" % expr_str(fir)[:80], bd.where(hs[0].idx), bad_detail="FIR argument = %s" % expr_str(fir)[:100])
     ctx.check(mentions_call(seq, r"real::sequence::Sequence::increment$") and mentions_field(seq, "seq"), "writer:seq", "SEQ <- self.seq.increment()", bd.where(hs[0].idx))
     hb = prog.body("transport::real::header::Header::new")
@@ -184,9 +195,8 @@ def r5(ctx):
     params = prog.fns.get(hb.path, {}).get("params")
     ctx.check(params == ["fin", "fir", "seq"], "Header::new:param-order", "Header::new(fin, fir, seq): %s" % params, hb.where(line=hb.line))
     # `last`
-    ll = bd.local_by_name("last")
-    defs = [sym.def_expr(blk, si) for l in ll for blk, si in bd.defs.get(l, [])]
-    ok = any(const_value(prog, d) == 0 for d in defs) and any(mentions(d, lambda s: s[0] == "bin" and s[1] in ("Sub", "SubWithOverflow")) and mentions_const(d, 1) and mentions_call(d, r"::len$") for d in defs)
+    sat = any(mentions_call(x, r"saturating_sub$") for x in lasts)
+    ok = sat or (any(const_value(prog, d) == 0 for d in lasts) and any(minus1(d) for d in lasts))
     ctx.check(ok, "writer:last", "last = chunks.len() - 1 (0 when empty)", bd.where(line=bd.line))
     ch = [c for c in bd.calls() if re.search(r"::chunks$", c.term.callee or "")]
     ok = len(ch) == 1 and (const_value(prog, sym.call_expr(ch[0].term)[2][1]) == T["MAX_PAYLOAD"]) and sym.call_expr(ch[0].term)[2][0] in (("capture", "fragment"), ("param", "fragment"))
@@ -334,8 +344,14 @@ def r10(ctx):
         for s_ in rb.succs(b.idx):
             after |= rb.reachable(s_)
         ctx.check(not (after & reads), "read:returns-after-link-message#%d" % n, "read() returns once a link-layer message is recorded", rb.where(b.idx), bad_detail="Reader::read keeps reading after recording a link-layer message: a fragment completed by a later frame is pending together with the message, and pop() returns only one of them")
-    if n < 2:
+    if n < 1:
         raise AnchorError("Reader::read: pending_link_layer_message writes %d" % n)
+    # both link status frame types are recorded (one store per arm, or one store behind the match)
+    wblocks = {b.idx for b, si, st in field_writes(rb, "pending_link_layer_message")}
+    for var in ("LinkStatusRequest", "LinkStatusResponse"):
+        arms = arm_edges(ctx, rb, g_is("frame_type", var))
+        ok = bool(arms) and all(rb.reachable(a.edge[1]) & wblocks for a in arms)
+        ctx.check(ok, "read:records:%s" % var, "a %s frame is recorded as a pending link-layer message" % var, rb.where(arms[0].edge[1]) if arms else "")
 
 
 RULES = [
